@@ -615,6 +615,13 @@ pub fn apply_stage<'a>(
             Stage::Take { k } => S::fw(s.into_fw().take(*k)),
             Stage::StepBy { k } => S::fw(s.into_fw().step_by((*k).max(1))),
             Stage::Shift { n, v } => S::Fw(s.into_fw().shift(*n, Tracked::from_val(v))),
+            Stage::VShift { n, fill } => S::Fw(s.into_fw().vshift(*n, fill.as_ref().map(Tracked::from_val))),
+            Stage::FFill { fill } => S::fw(s.into_fw().ffill(fill.as_ref().map(Tracked::from_val))),
+            Stage::BFill { fill } => match s {
+                S::De(d) => S::fw(d.bfill(fill.as_ref().map(Tracked::from_val))),
+                _ => return bad("bfill needs a double-ended stream"),
+            },
+            Stage::Fill { v } => S::fw(s.into_fw().fill(Tracked::from_val(v))),
             _ => return bad("stage not available for tracked items"),
         })),
         other => {
@@ -838,6 +845,7 @@ where
         Container::Deque => go!(VecDeque<T>, |r| obs_vec(r.iter())),
         Container::Array1 => go!(Array1<T>, |r| obs_vec(r.iter())),
         Container::Sim => go!(SimVec<T>, |r| obs_vec(r.items.iter())),
+        Container::Plain => go!(PlainVec<T>, |r| obs_vec(r.items.iter())),
         Container::Polars => bad("polars container handled separately"),
     }
 }
@@ -866,6 +874,7 @@ where
         Container::Deque => go!(VecDeque<T>, |r| obs_vec(r.iter())),
         Container::Array1 => go!(Array1<T>, |r| obs_vec(r.iter())),
         Container::Sim => go!(SimVec<T>, |r| obs_vec(r.items.iter())),
+        Container::Plain => go!(PlainVec<T>, |r| obs_vec(r.items.iter())),
         Container::Polars => bad("polars container handled separately"),
     }
 }
@@ -1074,6 +1083,10 @@ fn opt_collect<'a>(s: S<'a, Option<f64>>, c: Container) -> Result<SinkRes, Strin
             let r: SimVec<f64> = it.collect_vec1_opt();
             obs_vec(r.items.iter())
         },
+        Container::Plain => {
+            let r: PlainVec<f64> = it.collect_vec1_opt();
+            obs_vec(r.items.iter())
+        },
         Container::Polars => return bad("polars container handled separately"),
     };
     Ok(SinkRes { out: SinkOut::Seq(o), dead: vec![] })
@@ -1158,6 +1171,7 @@ fn plain_value<'a, T: Elem + 'a>(s: S<'a, T>, sink: &Sink, remaining: usize) -> 
         Some(Container::Deque) => go!(VecDeque<T>, |r| obs_vec(r.iter())),
         Some(Container::Array1) => go!(Array1<T>, |r| obs_vec(r.iter())),
         Some(Container::Sim) => go!(SimVec<T>, |r| obs_vec(r.items.iter())),
+        Some(Container::Plain) => go!(PlainVec<T>, |r| obs_vec(r.items.iter())),
         _ => bad("container not available for an untrusted stream"),
     }
 }
@@ -1182,6 +1196,7 @@ where
         Sink::TryPlain(Container::Deque) => go!(VecDeque<T>, |r| obs_vec(r.iter())),
         Sink::TryPlain(Container::Array1) => go!(Array1<T>, |r| obs_vec(r.iter())),
         Sink::TryPlain(Container::Sim) => go!(SimVec<T>, |r| obs_vec(r.items.iter())),
+        Sink::TryPlain(Container::Plain) => go!(PlainVec<T>, |r| obs_vec(r.items.iter())),
         _ => bad("sink not available for an untrusted fallible stream"),
     }
 }
@@ -1193,6 +1208,7 @@ fn plain_opt<'a>(s: S<'a, Option<f64>>, c: Container) -> Result<SinkRes, String>
         Container::Deque => obs_vec(it.collect_vec1_opt::<VecDeque<f64>>().iter()),
         Container::Array1 => obs_vec(it.collect_vec1_opt::<Array1<f64>>().iter()),
         Container::Sim => obs_vec(it.collect_vec1_opt::<SimVec<f64>>().items.iter()),
+        Container::Plain => obs_vec(it.collect_vec1_opt::<PlainVec<f64>>().items.iter()),
         Container::Polars => return bad("polars container handled separately"),
     };
     Ok(SinkRes { out: SinkOut::Seq(o), dead: vec![] })
